@@ -174,6 +174,9 @@ def parse_create_table(p):
     p.punct('(')
     cols, pk_clauses, fks = [], [], []
     while True:
+        if not cols and not pk_clauses and not fks and p.at_punct(')'):
+            p.punct(')')       # a table without columns: `CREATE TABLE "t" ( );`
+            break
         if p.at_words('PRIMARY', 'KEY'):
             p.next(); p.next()
             p.punct('(')
